@@ -208,6 +208,35 @@ func c09Sub(c *core.Ctx, t *tape.Tape, cfg gCfg, faults bool, cut int, kind stri
 	// serve the superseded gatherers until they have wound down
 	g.drain(faults)
 
+	if kind == "failed" && g.ag.LastState() == ice.ConnectionStateFailed && t.Bias(1, 2, "restart-from-failed") {
+		// the gatherers went on after the failure and may have added candidates since: the Restart that follows
+		// ends that generation like any other
+		listed := map[netip.AddrPort]string{}
+		g.api(func() {
+			for _, lc := range g.ag.LocalCands() {
+				listed[rig.CandAP(lc)] = lc.Type().String() + " " + rig.CandAddr(lc)
+			}
+		})
+		if err := restart(); err != nil {
+			c.Failf("harness/restart", "%v", err)
+			return steps, false
+		}
+		c.Probe("restart-from-failed")
+		synctest.Wait()
+		// at once (no simulated time passes: a second failure would clean up behind the Restart)
+		for _, so := range g.agentSockets(true) {
+			if what, ok := listed[so.Local]; ok {
+				c.Failf("C09/socket-open-after-restart", "%s: Restart of the failed agent returned; the socket %s of candidate %s, gathered after the failure and removed by the Restart, is still open", where, so.Local, what)
+				return steps, false
+			}
+		}
+		if len(listed) > 0 {
+			c.Probe("candidates-gathered-while-failed-removed-by-restart")
+		}
+		g.drain(faults)
+		kind = "restart"
+		where += " then Restart from Failed"
+	}
 	if kind == "restart" {
 		if open := g.W.OpenTCPConns(); len(open) > 0 {
 			c.Failf("C09/tcp-connection-open-after-restart", "%s: %d outgoing TCP connection(s) of the ended generation still open", where, len(open))
